@@ -164,8 +164,25 @@ func oracleC03(r *Result) {
 				"a Success response carries exactly the data of the user storage resolved", "SetUserinfoWithUserID failed ("+uc.Fault+"), reply: "+replySummary(t), t.ID)
 			continue
 		}
-		if ac == nil || ac.Snap == nil || uc == nil || uc.UserIdx < 0 || ec == nil {
+		if ec != nil && ec.Err != "" && ec.Fault != "abandoned" {
+			r.violate("C03 success-without-audience-record", "C03:callback:success-although-entity-lookup-failed:"+deliveryClass(rep),
+				"a Success response names as Audience the entity ID registered for the request's application", "GetEntityIDByAppID failed ("+ec.Fault+"), reply: "+replySummary(t), t.ID)
+			continue
+		}
+		if ac == nil || ac.Snap == nil || uc == nil || uc.UserIdx < 0 {
 			continue // C01's business
+		}
+		wantAud := ""
+		switch {
+		case ec != nil:
+			wantAud = ec.Ret
+		case t.HasStableAudience:
+			// the library did not ask the storage (it answered from a memory of its own): the registration did not change during
+			// the whole request, so the Audience is still determined
+			wantAud = t.StableAudience
+			w.probe("audience_checked_without_lookup")
+		default:
+			continue
 		}
 		w.probe("success_assertion_checked")
 		S := ac.Snap
@@ -193,8 +210,8 @@ func oracleC03(r *Result) {
 		if m.Issuer != t.Sent.EntityID || a.Issuer != t.Sent.EntityID {
 			bad("issuer", "", fmt.Sprintf("Issuer = %q", t.Sent.EntityID), fmt.Sprintf("response %q, assertion %q", m.Issuer, a.Issuer))
 		}
-		if len(a.Audiences) != 1 || a.Audiences[0] != ec.Ret {
-			bad("audience", strClass(ec.Ret), fmt.Sprintf("Audience = [%q]", ec.Ret), fmt.Sprintf("%q", a.Audiences))
+		if len(a.Audiences) != 1 || a.Audiences[0] != wantAud {
+			bad("audience", strClass(wantAud), fmt.Sprintf("Audience = [%q]", wantAud), fmt.Sprintf("%q", a.Audiences))
 		}
 		if !a.HasNameID || a.NameID != U.Username {
 			bad("nameid", strClass(U.Username), fmt.Sprintf("NameID = %q", U.Username), fmt.Sprintf("%q (present=%v)", a.NameID, a.HasNameID))
